@@ -52,9 +52,11 @@ Qed.
 
 Lemma drop_dt_nd_to c d dev nd : drop_dt (nd_to c d dev nd) = drop_dt nd.
 Proof.
-  unfold nd_to. destruct (keeps_dt c); [|reflexivity].
-  destruct (keep_or k_dtype (dt_val d) nd); [|reflexivity]. destruct (keep_or k_device (dev_val dev) nd); [|reflexivity].
-  rewrite !drop_dt_set_key; reflexivity.
+  unfold nd_to. destruct (cls_eqb c CIdentity || cls_eqb c CZero).
+  - destruct (keep_or k_dtype (dt_val d) nd); [|reflexivity]. destruct (keep_or k_device (dev_val dev) nd); [|reflexivity].
+    rewrite !drop_dt_set_key; reflexivity.
+  - destruct (is_perm_cls c); [|reflexivity]. destruct (keep_or k_dtype (dt_val d) nd); [|reflexivity].
+    rewrite drop_dt_set_key; reflexivity.
 Qed.
 
 Section WithDef.
@@ -110,9 +112,7 @@ Proof.
       * now rewrite drop_dt_set_key.
     + assert (STR : vshape_list (strip_list ch) = vshape_list ch).
       { rewrite strip_list_map, !vshape_list_map, map_map. apply map_ext. intros a. apply vshape_strip. }
-      destruct (cls_eqb c CPermutation).
-      { rewrite !vshape_op, <- L1, STR. f_equal. destruct d as [d'|]; [|reflexivity]. simpl. now rewrite drop_dt_set_key. }
-      destruct (cls_eqb c CZero).
+      destruct (rebuilt_kw c).
       { rewrite !vshape_op, <- L1, STR. f_equal. apply drop_dt_nd_to. }
       rewrite !vshape_op, <- L1. f_equal.
       rewrite !vshape_list_map, map_map. apply map_ext_Forall. eapply Forall_impl; [|exact ALL]. intros x [Lx Hx]. now apply Hx.
@@ -129,10 +129,6 @@ Proof.
     pose proof L as L0. rewrite losslessb_op in L. apply andb_prop in L as [L1 L2]. apply kvl_eqb_eq in L1.
     destruct (keeps_dt c).
     { rewrite !vshape_op, <- L1. f_equal.
-      - rewrite strip_list_map, !vshape_list_map, map_map. apply map_ext. intros a. apply vshape_strip.
-      - now rewrite drop_dt_set_key. }
-    destruct (cls_eqb c CTransposePermutation).
-    { rewrite !vshape_op. f_equal.
       - rewrite strip_list_map, !vshape_list_map, map_map. apply map_ext. intros a. apply vshape_strip.
       - now rewrite drop_dt_set_key. }
     rewrite !vshape_op, <- L1. f_equal. rewrite !vshape_list_map, map_map. apply map_ext_Forall.
@@ -172,8 +168,7 @@ Proof.
                    | Some d' => is_float d' = true /\
                        (if guarded c then sfix (nargs ch dn) ch 0
                         else if cls_eqb c CCat then forallb to_safe_sub ch
-                        else if cls_eqb c CPermutation then forallb is_index ch
-                        else if cls_eqb c CZero then forallb (fun x => negb (is_diff x)) ch
+                        else if rebuilt_kw c then forallb (kw_child_ok c) ch
                         else forallb to_safe ch) = true
                    | None => True
                    end).
@@ -226,17 +221,13 @@ Proof.
                   forallb P ch = true -> map obs (leaves_list (strip_list ch)) = map r (leaves_list ch)).
         { intros P r HP FP. rewrite strip_list_map. apply leaves_map_rel. apply Forall_forall. intros x Hx.
           apply HP. eapply forallb_In; eauto. }
-        destruct (cls_eqb c CPermutation).
+        destruct (rebuilt_kw c).
         { rewrite leaves_op. destruct d as [d'|].
-          - destruct SAFE as [F S]. apply (STR is_index); [|exact S].
-            intros x Px. destruct x as [t| |]; try discriminate Px. simpl in Px. simpl. unfold obs, cast_rule. simpl.
-            destruct (is_float (tdt t)); [discriminate Px|reflexivity].
-          - apply (STR (fun _ => true)); [|clear; induction ch; simpl; auto].
-            intros x _. apply NONE. }
-        destruct (cls_eqb c CZero).
-        { rewrite leaves_op. destruct d as [d'|].
-          - destruct SAFE as [F S]. apply (STR (fun x => negb (is_diff x))); [|exact S].
-            intros x Px. destruct x; try discriminate Px. reflexivity.
+          - destruct SAFE as [F S]. apply (STR (kw_child_ok c)); [|exact S].
+            intros x Px. unfold kw_child_ok in Px. destruct (cls_eqb c CPermutation).
+            + destruct x as [t| |]; try discriminate Px. simpl in Px. simpl. unfold obs, cast_rule. simpl.
+              destruct (is_float (tdt t)); [discriminate Px|reflexivity].
+            + destruct x; try discriminate Px. reflexivity.
           - apply (STR (fun _ => true)); [|clear; induction ch; simpl; auto].
             intros x _. apply NONE. }
         rewrite leaves_op. apply leaves_map_rel. apply Forall_forall. intros x Hx.
@@ -254,16 +245,19 @@ Proof.
   - apply leaves_conv_to; [exact L|]. destruct d as [d'|]; [|exact I]. simpl in S. apply andb_prop in S. exact S.
   - destruct o as [t|v|c ch dn nd at_]; try discriminate OP.
     simpl in S. apply andb_prop in S as [F T]. apply andb_prop in T as [T NOZ]. apply andb_prop in T as [T NOCH].
-    unfold conv_type, keeps_dt.
+    unfold conv_type.
     rewrite losslessb_op in L. apply andb_prop in L as [_ L2]. pose proof (lossless_list_Forall defdt ch L2) as LF.
     destruct (cls_eqb c CIdentity) eqn:ID.
-    { simpl in NOCH. destruct ch; [reflexivity|discriminate]. }
-    destruct (cls_eqb c CZero) eqn:ZERO.
-    { cbn [orb]. rewrite !leaves_op. rewrite strip_list_map. apply leaves_map_rel. apply Forall_forall. intros x Hx.
-      pose proof (forallb_In _ _ _ NOZ Hx) as Px. destruct x; try discriminate Px. reflexivity. }
-    simpl.
-    destruct (cls_eqb c CTransposePermutation) eqn:TP.
-    { simpl in NOCH. destruct ch; [reflexivity|discriminate]. }
+    { unfold keeps_dt. rewrite ID. simpl in NOCH. destruct ch; [reflexivity|discriminate]. }
+    destruct (rebuilt_kw c) eqn:RK.
+    { assert (KD : keeps_dt c = true) by (unfold keeps_dt; unfold rebuilt_kw in RK; rewrite ID; exact RK).
+      rewrite KD. rewrite !leaves_op. rewrite strip_list_map. apply leaves_map_rel. apply Forall_forall. intros x Hx.
+      pose proof (forallb_In _ _ _ NOZ Hx) as Px. unfold kw_child_ok in Px. destruct (cls_eqb c CPermutation).
+      - destruct x as [t| |]; try discriminate Px. simpl in Px. simpl. unfold obs, cast_rule. simpl.
+        destruct (is_float (tdt t)); [discriminate Px|reflexivity].
+      - destruct x; try discriminate Px. reflexivity. }
+    assert (KD : keeps_dt c = false) by (unfold keeps_dt; unfold rebuilt_kw in RK; rewrite ID; exact RK).
+    rewrite KD.
     rewrite !leaves_op. apply leaves_map_rel. apply Forall_forall. intros x Hx.
     rewrite Forall_forall in LF. pose proof (LF x Hx) as Lx. pose proof (forallb_In _ _ _ T Hx) as Sx.
     destruct x as [t|v|c0 ch0 dn0 nd0 at0]; [| reflexivity |].
